@@ -257,6 +257,26 @@ def r44(ctx):
     frac_round_trip(ctx, "R-4.4")
 
 
+def _r412(ctx):
+    from . import c03 as _c03
+
+    class _Quiet:
+        tree = ctx.tree
+
+        def ok(self, *a, **k):
+            pass
+
+        def bad(self, *a, **k):
+            pass
+
+        def note(self, *a, **k):
+            pass
+
+    acq_funcs, _rel = _c03.r31_32(_Quiet())
+    acq, methods = _c03._acquiring_functions(ctx.tree, acq_funcs)
+    _c03.r314(ctx, acq, methods, "R-4.12", " - the idle ensemble is excluded from the P matrix and gets no weight at any later step, and no assertion fires")
+
+
 def run(ctx):
     ctx.rule("R-4.7", "a restart keeps the persisted settings, among them the data file the rows are appended to", floor=4)
     ctx.rule("R-4.6", "the weights of a step are recorded before the restart file of that step is written (nothing write_toml serialises - frac, the P-matrix stream - changes after it)", floor=1)
@@ -276,6 +296,8 @@ def run(ctx):
     ctx.rule("R-4.11", "the busy set that protects in-flight paths from the re-sort and from being credited weight is the whole set (every path of every job; shared with C03 R-3.10)", floor=2)
     from .shared import whole_busy_set
     ctx.attempt(whole_busy_set, ctx, "R-4.11", " (its weights are then recorded while busy, and the idle path that took its slot is overwritten without being archived)")
+    ctx.rule("R-4.12", "an ensemble is busy exactly while a recorded job holds it: acquires only in functions that record the job in self.locked (shared with C03 R-3.14) - an ensemble left busy without a job is never credited weight again", floor=3)
+    ctx.attempt(_r412, ctx)
     ctx.attempt(r41, ctx)
     ctx.attempt(r42, ctx)
     ctx.attempt(r43, ctx)
@@ -289,6 +311,7 @@ def run(ctx):
 
 
 VARIANTS = [
+    B("c04-busy-flags-restored-at-load", REPEX, '            "frac": np.array(frac, dtype="longdouble"),\n        }\n\n    def pattern_header', '            "frac": np.array(frac, dtype="longdouble"),\n        }\n        for enss0, _ in self.locked0:\n            for ens in enss0:\n                self.lock(ens)\n\n    def pattern_header', "R-4.12", control=True, why="seeded C04_j"),
     B("c04-resort-protects-one-path-per-job", REPEX, "            locks = self.locked_paths()\n            zero_idx", "            locks = [int(pnums[0]) for _, pnums in self.locked]\n            zero_idx", "R-4.11", control=True, why="seeded C04_i"),
     K("c04-keep-resort-busy-set-from-record", REPEX, "            locks = self.locked_paths()\n            zero_idx", "            locks = [int(pn) for _, pnums in self.locked for pn in pnums]\n            zero_idx", why="every path of every job: same set"),
     B("c04-rejected-job-freed-without-invalidation", REPEX, "            self.add_traj(ens_num, out_traj, valid=out_traj.weights)\n\n        # record weights", "            if out_traj.path_number == pn_old:\n                self._locks[ens_num + self._offset] = 0\n            else:\n                self.add_traj(ens_num, out_traj, valid=out_traj.weights)\n\n        # record weights", "R-4.10", control=True, why="seeded C04_h"),
